@@ -5,6 +5,7 @@ ID = "C07"
 STAGES = [
     Stage("extrasmoother", "p07_extrasmoother", "plain", {"quick": 200, "thorough": 20000}, timeout_per_case=120),
     Stage("extrasmoother-asan", "p07_extrasmoother", "asan", {"quick": 32, "thorough": 800}, offset=1000000, timeout_per_case=300),
+    Stage("extrasmoother-thread-limit", "p07_extrasmoother", "plain", {"quick": 60, "thorough": 2000}, offset=2000000, timeout_per_case=120, env={"OMP_THREAD_LIMIT": "2"}),
 ]
 THRESHOLDS = {
     "coarse_nodes_bit_identical": 0.5,       # memcmp of every (even i_r, even i_theta) value before/after
